@@ -56,6 +56,8 @@ func checkC20(c *Ctx) {
 	c.Rule("R6", "gauges are decremented only in release functions that run deferred")
 	c.Rule("R8", "a gauge decremented by a completion hook is incremented before that hook is registered")
 	checkHookGaugesBalanced(c, "R8")
+	c.Rule("R9", "one outcome per request (shared with C02.R1): every request is completed exactly once on every path - the outcome hooks run once per completion, so a request answered twice is counted twice")
+	reportOwn(c, runOwn(c), "R9", nil)
 
 	type pair struct{ gauge, up, down string }
 	pairs := []pair{{"CxActive", "CxTotal", "CxDestroyTotal"}, {"connActive", "connTotal", "connDestroy"}}
